@@ -130,7 +130,8 @@ Fixpoint split_passes (ev : list (Z * Z)) (j : Z) (prev : option prow) (cur : li
 
 Definition alive_throughout (x : Z) (ps : list prow) : bool :=
   forallb (fun p => match snap_dead (p_snap p) x with Some false => true | _ => false end) ps.
-Definition names_of (ps : list prow) : list Z := flat_map (fun p => map fst (p_snap p)) ps.
+(* the candidates: whoever is in the first record of the previous pass (a peer missing there was not present throughout) *)
+Definition names_of (ps : list prow) : list Z := match ps with p :: _ => map fst (p_snap p) | [] => [] end.
 
 Fixpoint mon_passes (ev : list (Z * Z)) (j : Z) (prev : option (list prow)) (l : list (list prow)) : verdict :=
   match l with
